@@ -7,36 +7,47 @@ from ..ir import E, AnalysisError
 from .. import q
 from ..values import pval
 
-TITLE = 'LFPS detector windows / two-in-a-row rule and generator timing'
-FLOOR = 80
+TITLE = 'LFPS detector windows / two-in-a-row rule and generator timing (region abstraction, exhaustive)'
+FLOOR = 70
 DECIDES = ('Roles are found through the public ports of LFPSTransceiver (the submodule whose port drives '
            'polling_detected / ping_detected / reset_detected, the submodule that drives send_signaling and '
            'drive_electrical_idle); each such submodule is re-extracted with exactly the constructor arguments the '
            'transceiver passes (pattern object, forwarded clock frequency) for every clock frequency of a sweep. '
-           '(a) the pattern objects wired to each role carry the USB 3.2 Table 6-30 numbers (Polling 0.6/1.0/1.4 us '
-           'every 6/10/14 us, Ping 40 ns..160|200 ns every 160/200/240 ms, tReset 80/100/120 ms without repeat) and the '
-           'transceiver forwards its clock frequency and wires signaling_received / send_polling to them '
-           'unconditionally; (b) the extracted detector IR (FSM, registers with their declared widths, '
-           'last-assignment-wins, state-scoped statements, one-cycle model of the synchronizer) is executed cycle by '
-           'cycle on received envelopes -- stretches in which only free-running counters change are skipped exactly, '
-           'using the constants the counters are compared with as region boundaries -- and the detect output is '
-           'compared with the reference of the property: bursts of ceil(f*t_min) and floor(f*t_max) cycles are '
-           'accepted, bursts one cycle shorter than f*t_min, at least one cycle longer than f*t_max, glitches, '
-           'over-long bursts and continuous signalling are never reported; the same for the repeat period, which is '
-           'measured from burst start to burst start (long burst + minimal period accepted, long burst + over-long '
-           'period rejected, ...); a periodic pattern is reported only when two complete in-window iterations directly '
-           'follow each other (single iteration, and a good iteration separated from the next by a short / long burst '
-           'or a short / long period, never report; reporting resumes after two good ones); a non-repeating pattern is '
-           'reported once per in-window burst; (c) every constant a counter is compared with fits the declared counter '
-           'width; (d) the extracted generator IR executed the same way: while generate is high it emits bursts of '
-           'f*t_typ cycles (less than one cycle of rounding) every f*T_typ cycles (at most two cycles of turnaround), '
-           'holds drive_electrical_idle for the whole cycle, starts within a few cycles, sends nothing when not '
-           'enabled and stops after the running cycle. ')
-NOT_DECIDED = ('metastability / latency of the FFSynchronizer (modelled as one register), behaviour for burst lengths and '
-               'periods within one cycle of a window edge on the outside (sampling quantisation; treated as do-not-care), '
-               'envelopes whose next burst starts in the very cycle the detector gives up on an over-long period, the '
-               'LFPS square wave itself (delegated to the PHY), cycles_sent counting, and the Ping.LFPS t_burst maximum '
-               '(160 ns and 200 ns are both accepted as spec values).')
+           '(a) structural: the pattern objects wired to each role carry the USB 3.2 Table 6-30 numbers (Polling '
+           '0.6/1.0/1.4 us every 6/10/14 us, Ping 40 ns..160|200 ns every 160/200/240 ms, tReset 80/100/120 ms without '
+           'repeat); the transceiver forwards its clock frequency and wires signaling_received / send_polling '
+           'unconditionally; every constant the cycle counter is compared with fits the declared width, and for every '
+           'window edge f*t of the role there is such a constant within one cycle. '
+           '(b) exhaustive fixpoint for each detector: the cycle counter is read only through comparisons with constants '
+           'and written only by +1 / constants (checked), so it is abstracted to its region between those constants '
+           '(singleton regions around every constant, wrap at the declared width); FSM state, history flag, edge-detector '
+           'register and synchronised input are kept exactly.  A reference monitor built only from the spec windows at '
+           'that clock frequency (own region counter from burst start; class of the burst length when the burst ends, '
+           'class of the start-to-start period when the next burst starts; class of the previous iteration) is composed '
+           'with it; the two counters are related exactly by their difference while they run in lock-step and tracked '
+           'independently otherwise.  One cycle of the extracted IR (last-assignment-wins, state-scoped statements) is '
+           'evaluated per (abstract product state, input) and ALL states reachable from reset under input 0/1 are '
+           'explored.  On that graph: safety -- detect is raised on no reachable transition on which the monitor does not '
+           'hold that the last two complete iterations (periodic) / the last finished burst (single-shot) were not '
+           'out-of-window (covers burst min/max, repeat min/max, start-to-start measurement, two-in-a-row, history cleared '
+           'by a bad burst or period; abstract counterexample path in the message); liveness on the subgraph of in-window '
+           'envelopes -- after every transition on which a report is due, no path reaches the start of the next burst '
+           'without detect; and a transition raising detect is reachable when every burst length / period sits exactly '
+           'on ceil(f*t_min) resp. floor(f*t_max) (all four combinations). '
+           '(c) exhaustive fixpoint for the generator (state x counter region x monitor, request 0/1): with the request '
+           'held every burst lasts f*t_typ cycles (less than one cycle of rounding) and starts f*T_typ cycles after the '
+           'previous one (at most two cycles of turnaround), and such bursts exist; send_signaling never without '
+           'drive_electrical_idle; drive_electrical_idle on every transition from a burst on while the request stays '
+           'high; nothing asserted on any transition reachable without a request; from every state reachable without a '
+           'request a held request starts a burst within 4 transitions; with the request low the sub-graph outside the '
+           'initial FSM state has no cycle (other than region stuttering) and the initial state stays silent. ')
+NOT_DECIDED = ('metastability / latency of the FFSynchronizer (modelled as one register; the monitor observes its output), '
+               'lengths and periods within one cycle above a window maximum (sampling quantisation: neither required nor '
+               'forbidden), the requirement to report single-shot envelopes whose idle gap is shorter than 4 cycles (the '
+               'edge detector register is only refreshed in the waiting state, so a burst that starts in the cycle after the '
+               'detector returned there is missed) and periodic envelopes after an out-of-window iteration, the exact cycle '
+               'of the report (any cycle before the next burst start is accepted), the LFPS square wave itself (delegated to '
+               'the PHY), cycles_sent counting, and the Ping.LFPS t_burst maximum (160 ns and 200 ns are both accepted).')
 
 TOP = 'LFPSTransceiver'
 EPS = 1e-6
@@ -59,6 +70,7 @@ TX_IDLE = 'self.drive_electrical_idle'
 GEN_ROLE = 'polling'
 
 QUICK_FREQS = (125e6, 62.5e6)
+QUICK_SECOND_ROLES = ('polling',)   # the engine needs ~1 s to size Signal(range(30e6)): second frequency only where cheap
 THOROUGH_FREQS = (125e6, 250e6, 62.5e6, 133.33e6, 156.25e6)
 FWD_FREQ = 250e6
 
@@ -474,7 +486,7 @@ class Part:
 
 MAX_NODES = 250000
 MIN_GAP = 4         # envelopes whose idle gap is shorter than this many cycles are not required to be reported
-SYNC_D = 2          # design counter and reference counter are related exactly while they differ by at most this
+SYNC_D = 1          # design counter and reference counter are related exactly while they differ by at most this
 
 
 class Product:
@@ -683,7 +695,7 @@ class EnvelopeMonitor:
         nact = 'inc' if started else 'hold'
         if s and not mp:
             ev = 'rise'
-            gap_ok = not started or gap >= MIN_GAP
+            gap_ok = not started or self.r is not None or gap >= MIN_GAP
             if self.r is None:
                 credit = False
             elif started and bcls is not None:
@@ -699,13 +711,13 @@ class EnvelopeMonitor:
             ev = 'fall'
             bcls = cls = self.b.klass(n)
             nv = n
-            gap = 1
+            gap = 1 if self.r is None else 0
             if self.r is None:
                 credit = bcls != BAD
                 due = bcls == GOOD
                 bcls = None
-        elif not s and started:
-            gap = min(gap + 1, MIN_GAP)
+        elif not s and started and self.r is None and gap < MIN_GAP:
+            gap += 1
         return (s, started, bcls, prev, credit, gap), nact, (ev, cls, credit, due, nv, gap_ok)
 
 
@@ -1054,6 +1066,8 @@ def run(ctx):
     for f in freqs:
         tir_f, dets_f, gsig_f, gidle_f = resolve(ctx, f)
         for role, (obj, port, a) in sorted(dets_f.items()):
+            if ctx.tier != 'thorough' and f != freqs[0] and role not in QUICK_SECOND_ROLES:
+                continue
             pat = _pattern_of(ctx, obj)
             eff = _effective(ctx, role, pat)
             check_detector(ctx, role, f, obj, port, eff)
